@@ -348,7 +348,7 @@ func TestGenC05(t *testing.T) {
 		for _, g := range leaked {
 			q.fail("c12:leak:stack:"+g, fmt.Sprintf("case %d", i))
 		}
-		if cfg.plain && res.hsErr[0] == nil && res.hsErr[1] == nil && class == "clean" {
+		if cfg.plain && res.hsErr[0] == nil && res.hsErr[1] == nil && class == "clean" && complete && !visible {
 			o.line("RD tcp %s | %s | %s", intsString(cfg.writes[0]), intsString(res.readBufs), intsString(res.readNs))
 		}
 		q.stat("cases", 1)
